@@ -57,3 +57,14 @@ TEXT["C09"] = dict(
     note=_PROG_NOTE,
     technique="Coq proof (stream bisimulation, membership lemmas for mplus/bind, induction on loop derivations) + differential correspondence",
 )
+
+TEXT["C04"] = dict(
+    text="gomini.EqualO on pointer-shaped Go values is modelled as the verified micro unification algorithm applied to an injective term encoding of the "
+         "values (variables by registration, never by placeholder contents): theorems C04_mgu (solutions of the result = unifiers compatible with the "
+         "earlier bindings), C04_preserves, C04_resolve_equal, C04_fail, C04_total, C04_wf, C04_encoding_faithful (Coq kernel, no axioms). The tie is "
+         "differential execution through the exported gomini API (NewVar/Set/EqualO/CastVar/Get) under BOTH placeholder policies, with oracles for "
+         "verdict, unifier, most-general, earlier bindings, input state unchanged and independence of placeholder contents.",
+    note="trusted: Coq kernel + vm_compute; the harness's value encoding/decoding and reference unifier; the hand model is tied by sampling; "
+         "content independence holds of the model by construction (contents are not an input) and is checked on the code by the oracle",
+    technique="Coq proof (reduction to the verified unification model through an injective encoding) + differential correspondence",
+)
